@@ -17,8 +17,9 @@ from . import kernel, seams, shrink
 from .world import lp_class, np_class
 
 VERIF = os.path.dirname(os.path.dirname(os.path.dirname(os.path.abspath(__file__))))
-REPLAYS = os.path.join(VERIF, "replays")
-EVIDENCE = os.path.join(VERIF, "evidence")
+_OUT = os.environ.get("VERIF_OUT")          # mutant / scratch runs write their replays and evidence elsewhere
+REPLAYS = os.path.join(_OUT or VERIF, "replays")
+EVIDENCE = os.path.join(_OUT or VERIF, "evidence")
 KNOWN = os.path.join(VERIF, "known_findings.json")
 RUN_PY = os.path.join(VERIF, "sim", "run.py")
 
